@@ -1,5 +1,6 @@
 import JominiModel.Proofs.TextSkip
 import JominiModel.Proofs.TextReaderFaithful
+import JominiModel.Proofs.TextReaderUnfit
 /-
 C09 (text), document level: on the rendering of a document under a valid reader-safe layout, `skip_container` called
 right after the `Open` token of a container leaves the reader exactly behind that container's matching close: the tokens
@@ -524,5 +525,87 @@ theorem skipAt_items (b : Bool) (pre more : List (Bytes × Lexeme)) (g gc gt : B
     simp only [List.nil_append, List.length_append, Nat.zero_add] at hpos1 ⊢
     rw [hD1, hD2] at hpos1
     omega
+
+end Jomini.TextReader
+
+namespace Jomini.TextReader
+open Jomini Jomini.TextReader.Spec
+
+/-! ### documents -/
+
+mutual
+/-- the value `c` occurs in the value `v` / among the members `ms` -/
+inductive InV : DVal → DVal → Prop
+  | here (c : DVal) : InV c c
+  | inside {c : DVal} {g gc : Bytes} {ms : DMembers} : InM c ms → InV c (.cont g ms gc)
+inductive InM : DVal → DMembers → Prop
+  | fieldVal {c v : DVal} {g0 g1 key : Bytes} {kq : Bool} {o : Op} {rest : DMembers} : InV c v → InM c (.field g0 kq key g1 o v rest)
+  | fieldRest {c v : DVal} {g0 g1 key : Bytes} {kq : Bool} {o : Op} {rest : DMembers} : InM c rest → InM c (.field g0 kq key g1 o v rest)
+  | elemVal {c v : DVal} {rest : DMembers} : InV c v → InM c (.elem v rest)
+  | elemRest {c v : DVal} {rest : DMembers} : InM c rest → InM c (.elem v rest)
+end
+
+mutual
+/-- the lexemes of an occurring value are a contiguous segment of the document's lexeme list -/
+theorem InV.segment : ∀ {c v : DVal}, InV c v → ∃ pre more, itemsV v = pre ++ itemsV c ++ more
+  | _, _, .here c => ⟨[], [], by simp⟩
+  | _, _, .inside (g := g) (gc := gc) (ms := ms) h => by
+    obtain ⟨pre, more, e⟩ := InM.segment h
+    exact ⟨(g, .open_) :: pre, more ++ [(gc, .close)], by simp [itemsV, e]⟩
+theorem InM.segment : ∀ {c : DVal} {ms : DMembers}, InM c ms → ∃ pre more, itemsM ms = pre ++ itemsV c ++ more
+  | _, _, .fieldVal (g0 := g0) (g1 := g1) (key := key) (kq := kq) (o := o) (rest := rest) h => by
+    obtain ⟨pre, more, e⟩ := InV.segment h
+    exact ⟨(g0, .scalar kq key) :: (g1, .op o) :: pre, more ++ itemsM rest, by simp [itemsM, e]⟩
+  | _, _, .fieldRest (v := v) (g0 := g0) (g1 := g1) (key := key) (kq := kq) (o := o) h => by
+    obtain ⟨pre, more, e⟩ := InM.segment h
+    exact ⟨(g0, .scalar kq key) :: (g1, .op o) :: (itemsV v ++ pre), more, by simp [itemsM, e]⟩
+  | _, _, .elemVal (rest := rest) h => by
+    obtain ⟨pre, more, e⟩ := InV.segment h
+    exact ⟨pre, more ++ itemsM rest, by simp [itemsM, e]⟩
+  | _, _, .elemRest (v := v) h => by
+    obtain ⟨pre, more, e⟩ := InM.segment h
+    exact ⟨itemsV v ++ pre, more, by simp [itemsM, e]⟩
+end
+
+/-- the readers the theorem is about: the slice reader, or a `Read`-backed reader with a buffer larger than the input
+and a fault-free schedule (read sizes ≥ 1) -/
+def GoodStart (data : Bytes) (r0 : Reader) : Prop :=
+  r0 = fromSlice data ∨ ∃ cap sched, data.length < cap ∧ WfSched sched ∧ NoFaults sched ∧ r0 = fromReader cap sched data
+
+theorem GoodStart.rel {data : Bytes} {r0 : Reader} (h : GoodStart data r0) : Rel r0 0 .unknown data ∧ Good data.length r0 := by
+  rcases h with rfl | ⟨cap, sched, hc, hw, hnf, rfl⟩
+  · exact ⟨⟨rfl, rfl, by simp [fromSlice], by intro x hx; simp [fromSlice] at hx, fun _ => rfl⟩,
+      Or.inl rfl, by intro x hx; simp [fromSlice] at hx⟩
+  · exact ⟨⟨rfl, rfl, by simp [fromReader], hw, by intro h; simp [fromReader] at h; omega⟩,
+      Or.inr (by simpa [fromReader] using hc), by simpa [fromReader] using hnf⟩
+
+/-- **C09 (text): `skip_container` ends exactly behind the container's matching close.**  Let `doc` be a document (fields,
+array elements, containers nested to any depth) rendered under a valid reader-safe layout (`ValidM`; gaps of blanks and
+complete comments, optional BOM).  Quoted scalars may contain braces, `#`, escaped quotes; comments may contain anything;
+unquoted scalars of the skipped container must not contain `"` (`skipSafeTok`; `{ } #` are excluded by validity).  For
+every container `{ ms }` of the document — every way its lexemes `itemsV (.cont g ms gc)` sit in the document's lexeme
+list as `pre ++ … ++ more` —: reading the `pre` tokens and the `Open` token, then calling `skip_container`, then reading
+on, yields exactly the tokens of `more`, a clean end, at the end of the input.  This holds for the slice reader and for
+every fault-free read schedule with a buffer larger than the input. -/
+theorem text_skip_matching_close (doc ms : DMembers) (g gc gt : Bytes) (b : Bool) (pre more : List (Bytes × Lexeme))
+    (r0 : Reader) (f n : Nat)
+    (hocc : itemsM doc = pre ++ itemsV (.cont g ms gc) ++ more)
+    (hv : ValidM doc gt) (hgt : EndGap gt) (hsafe : ∀ it ∈ itemsM ms, skipSafeTok it.2.tok = true)
+    (hclash : b = false → ¬∃ r', renderM doc ++ gt = 0xef :: 0xbb :: 0xbf :: r')
+    (hr0 : GoodStart (bomBytes b ++ (renderM doc ++ gt)) r0)
+    (hf : 2 * (bomBytes b ++ (renderM doc ++ gt)).length + 4 ≤ f) (hn : more.length + 1 ≤ n) :
+    ∃ run, skipAt f n pre.length r0 = some (pre.map (fun x => x.2.tok), run) ∧
+      run.toks = more.map (fun x => x.2.tok) ∧ run.out = .end_ ∧
+      run.final.position = (bomBytes b ++ (renderM doc ++ gt)).length := by
+  have hr : renderLex (itemsM doc) gt = renderM doc ++ gt := renderLex_itemsM doc gt
+  have hvl : ValidLex (itemsM doc) gt := by
+    have := validLex_itemsM doc [] gt (by simpa [renderLex] using hv) (by simpa [ValidLex] using hgt)
+    simpa using this
+  have hitems : itemsM doc = pre ++ (g, Lexeme.open_) :: (itemsM ms ++ (gc, Lexeme.close) :: more) := by
+    rw [hocc]; simp [itemsV]
+  rw [← hr, hitems] at hr0 hf hclash ⊢
+  rw [hitems] at hvl
+  obtain ⟨hrel, hgood⟩ := hr0.rel
+  exact skipAt_items b pre more g gc gt ms r0 f n hvl hsafe hclash hrel hgood hf hn
 
 end Jomini.TextReader
